@@ -32,7 +32,7 @@ func (propC06) Level() string  { return "exploration" }
 func (propC06) NewParams() any { return &C06Params{} }
 func (propC06) Plan(tier string) (int, int) {
 	if tier == "thorough" {
-		return 300000, 0
+		return 1500000, 0
 	}
 	return 12000, 0
 }
